@@ -562,7 +562,11 @@ class PurityWorld:
             if not injected:
                 self.count(f"raised:{kind}.fit:{type(exc).__name__}:{str(exc)[:50]}")
             if injected:
-                m["retired"] = True  # partially fitted: nothing more is promised
+                # partially fitted: nothing is promised about this state, reads are skipped;
+                # but a later fit of the object is again a fit of "a previously fitted
+                # estimator" if an earlier fit had succeeded, and owes the fresh state
+                m["broken"] = True
+                m["crashed"] = True
                 self.probe("fault_landed_inside_fit")
                 return
             # a refit that raises where a fresh estimator succeeds is a violation
@@ -582,6 +586,8 @@ class PurityWorld:
             m["broken"] = True
             return
         m["broken"] = False
+        if m.pop("crashed", False) and any(f["ok"] for f in m["fits"][:-1]):
+            self.probe("refit_after_crashed_fit_compared_with_fresh_twin")
         self.count("ops_ok")
         self.count("fits_ok")
         if res is not obj:
@@ -732,7 +738,8 @@ class PurityWorld:
             if not injected:
                 self.count(f"raised:{kind}.{meth}:{type(exc).__name__}:{str(exc)[:50]}")
             if injected:
-                m["retired"] = True
+                m["broken"] = True  # until the next successful fit
+                m["crashed"] = True
             return
         self.count("ops_ok")
         self.log.add("CALL", name, meth, "ok")
